@@ -11,6 +11,9 @@ import NV.C16.RtDefs
 import NV.C16.ProofSave
 import NV.C16.ProofTotal
 import NV.C16.ProofRoundtrip
+import NV.C16.ProofObject
+import NV.C16.Tree
+import NV.C16.ProofTree
 
 namespace NV.C16.Props
 
@@ -118,5 +121,64 @@ theorem statics_and_objects_not_persisted (F : FloatOps α) (mb : MbLen) :
       | _ => True) ∧
     save F (Value.obj : Value α) = [] ∧ restoreSvalue F mb [] = Res.ok (Value.int 0) :=
   NV.C16.statics_and_objects_not_persisted F mb
+
+/-! ## object level: the walks over the program tree (Tree.lean) -/
+
+/-- **save_object writes each non-static variable its own value.**  For EVERY program tree (inherits with any type
+modifiers at any depth, static variables anywhere) and variable array of the right size, the cursor walk of
+`save_object_recurse` writes exactly the lines the flat layout `slots` prescribes: the k-th slot's name with the k-th
+slot's value, skipping precisely the slots that are static — declared static or reached through a static inherit
+(the whole subtree: a statically inherited program's own inherits included). -/
+theorem saveObject_writes_each_nonstatic_variable_its_own_value (F : FloatOps α) (z : Bool) (p : Prog)
+    (vals : List (Value α)) (h : vals.length = (slots p false).length) :
+    saveTreeLines F z p vals = some (saveLines F z (mkVars (slots p false) vals)) :=
+  NV.C16.TreeProofs.saveObject_writes_each_nonstatic_variable_its_own_value F z p vals h
+
+/-- ... where, with save_zeros, the lines are: every non-static variable exactly once, in slot order, as
+`name value-of-that-variable`, and nothing static -/
+theorem saveLines_spec (F : FloatOps α) (vars : List (Var α)) :
+    saveLines F true vars =
+      (vars.filter (fun v => !v.isStatic)).map (fun v => v.name ++ 32 :: (save F v.val ++ [10])) :=
+  NV.C16.TreeProofs.saveLines_spec F vars
+
+/-- ... and without save_zeros a subset of those lines (zero-valued variables are left out) -/
+theorem saveLines_sub (F : FloatOps α) (z : Bool) (vars : List (Var α)) :
+    ∀ l ∈ saveLines F z vars, ∃ v ∈ vars, v.isStatic = false ∧ l = v.name ++ 32 :: (save F v.val ++ [10]) :=
+  NV.C16.TreeProofs.saveLines_sub F z vars
+
+/-- `find_global_variable` (search through the inherits, then the own variables, index accumulated on the way)
+returns the FIRST slot of that name in layout order, with its effective static flag -/
+theorem findGlobal_flat (p : Prog) (name : List Nat) :
+    findGlobal p name = NV.C16.TreeProofs.firstIdx name (slots p false) 0 :=
+  NV.C16.TreeProofs.findGlobal_flat p name
+
+/-- `clear_non_statics` zeroes exactly the non-static slots -/
+theorem cns_flat (vals : List (Value α)) (p : Prog) (h : vals.length = (slots p false).length) :
+    (cns vals p 0).1 = ((mkVars (slots p false) vals).map (fun v => if v.isStatic then v.val else Value.int 0)) :=
+  NV.C16.TreeProofs.cns_flat vals p h
+
+/-- hence `restore_object` on the tree IS the flat `restoreObject` of Model.lean on the layout: everything proved
+about the flat functions (`restoreObject_total`, `statics_and_objects_not_persisted`, `object_roundtrip`) holds for
+every program tree -/
+theorem restoreObjectT_flat (F : FloatOps α) (mb : MbLen) (nc : Bool) (file : Option (List Nat)) (p : Prog)
+    (vals : List (Value α)) (h : vals.length = (slots p false).length) :
+    restoreObjectT F mb nc file p vals =
+      ((restoreObject F mb nc file (mkVars (slots p false) vals)).1,
+       NV.C16.TreeProofs.outVals (restoreObject F mb nc file (mkVars (slots p false) vals)).2) :=
+  NV.C16.TreeProofs.restoreObjectT_flat F mb nc file p vals h
+
+/-- **Object-level round trip.**  save_object of the variables `vars`, then restore_object(file, 0) into an object of
+the same layout whose variables currently are `live`: static variables keep their live values, every non-static
+variable holds the saved value (equal up to `Equiv`, object references as 0).  Domain `objSavable` (decidable):
+variable names are identifiers and PAIRWISE DIFFERENT (two variables of one name at different inheritance levels are
+not restored correctly: open finding K6, `Witness.same_name_variables`), non-static values in the domain of
+`roundtrip`. -/
+theorem object_roundtrip (F : FloatOps α) (mb : MbLen) (prog : List Nat) (z : Bool) (vars live : List (Var α))
+    (hprog : ∀ b ∈ prog, b ≠ 10 ∧ b ≠ 0) (hs : objSavable vars = true)
+    (hf : ∀ v ∈ vars, v.isStatic = false → FloatsOK F v.val)
+    (hlay : live.map (·.name) = vars.map (·.name) ∧ live.map (·.isStatic) = vars.map (·.isStatic)) :
+    ∃ res, restoreObject F mb false (some (saveFileText F prog z vars)) live = (1, RoOut.done res) ∧
+      ObjRestored F vars live res :=
+  NV.C16.object_roundtrip F mb prog z vars live hprog hs hf hlay
 
 end NV.C16.Props
